@@ -23,9 +23,6 @@ MUT = {
     'M3_root_stretch_fit_subtracts_left_margin_only': ('src/compute/mod.rs', [(
         "width: available_space.width.into_option().maybe_sub(margin.horizontal_axis_sum()),",
         "width: available_space.width.into_option().maybe_sub(margin.left),")]),
-    'M4_block_known_dimensions_or_order': ('src/compute/block.rs', [(
-        "known_dimensions.or(min_max_definite_size).or(clamped_style_size).maybe_max(padding_border_size);",
-        "known_dimensions.or(clamped_style_size).or(min_max_definite_size).maybe_max(padding_border_size);")]),
     'M5_abs_stored_padding_from_item': ('src/compute/block.rs', [(
         "                location,\n                padding,\n                border,\n                margin: resolved_margin,",
         "                location,\n                padding: item.padding,\n                border: item.border,\n                margin: resolved_margin,")]),
@@ -36,6 +33,10 @@ MUT = {
         "    for item in items.iter().filter(|item| item.position == Position::Absolute) {\n        let child_style = tree.get_block_child_style(item.node_id);",
         "    for item in items.iter().filter(|item| item.position == Position::Absolute && area_width > 0.0) {\n        let child_style = tree.get_block_child_style(item.node_id);")]),
     # ---- must stay silent
+    # semantically equal: when max <= min the clamped style size IS min (min wins in maybe_clamp), otherwise min_max_definite is None
+    'H3_block_known_dimensions_or_order': ('src/compute/block.rs', [(
+        "known_dimensions.or(min_max_definite_size).or(clamped_style_size).maybe_max(padding_border_size);",
+        "known_dimensions.or(clamped_style_size).or(min_max_definite_size).maybe_max(padding_border_size);")]),
     'H1_measuring_query_not_collapsible': ('src/compute/block.rs', [(
         "                available_space.map_width(|w| w.maybe_sub(item_x_margin_sum)),\n                SizingMode::InherentSize,\n                Line::TRUE,",
         "                available_space.map_width(|w| w.maybe_sub(item_x_margin_sum)),\n                SizingMode::InherentSize,\n                Line::FALSE,")]),
